@@ -565,6 +565,15 @@ func (st simStreamer) NewReceiver(ctx context.Context, topic string, name string
 	if d != dOk {
 		return nil, st.s.dispErr(d)
 	}
+	// receiver options as the reference stream reads them: StreamFromLatest places a receiver name that has no stored position
+	// after everything sent so far (the engine's own consumers never ask for it; Await does, on the in-memory adapters)
+	var ro workflow.ReceiverOptions
+	for _, o := range opts {
+		o(&ro)
+	}
+	if _, has := s.cursors[name]; ro.StreamFromLatest && !has {
+		s.cursors[name] = len(s.log)
+	}
 	s.openReceivers.Add(1)
 	return &simReceiver{s: s, p: p, topic: topic, name: name}, nil
 }
